@@ -280,9 +280,9 @@ func (n *Node) render(dir string, b *strings.Builder) {
 	case "cond":
 		fmt.Fprintf(b, "(cond (nil 'no) (t %s))", all())
 	case "dolist":
-		fmt.Fprintf(b, "(let ((lv%d (dolist (e%d '(1 2)) %s))) (sim-emit \"bend\" \"nil\") lv%d)", n.ID, n.ID, all(), n.ID)
+		fmt.Fprintf(b, "(let ((lv%d (dolist (e%d '(1 2)) %s))) (sim-emit \"bend\" \"nil\" lv%d) lv%d)", n.ID, n.ID, all(), n.ID, n.ID)
 	case "dotimes":
-		fmt.Fprintf(b, "(let ((lv%d (dotimes (i%d 2) %s))) (sim-emit \"bend\" \"nil\") lv%d)", n.ID, n.ID, all(), n.ID)
+		fmt.Fprintf(b, "(let ((lv%d (dotimes (i%d 2) %s))) (sim-emit \"bend\" \"nil\" lv%d) lv%d)", n.ID, n.ID, all(), n.ID, n.ID)
 	case "lambda":
 		fmt.Fprintf(b, "(funcall (lambda (a%d) %s) %d)", n.ID, all(), n.ID)
 	case "send":
@@ -292,7 +292,7 @@ func (n *Node) render(dir string, b *strings.Builder) {
 	case "block":
 		// the value is kept in a variable so that a marker can tell when the
 		// block has ended, whichever way it ended
-		fmt.Fprintf(b, "(let ((bv%d (block %s %s))) (sim-emit \"bend\" \"%s\") bv%d)", n.ID, n.Name, all(), n.Name, n.ID)
+		fmt.Fprintf(b, "(let ((bv%d (block %s %s))) (sim-emit \"bend\" \"%s\" bv%d) bv%d)", n.ID, n.Name, all(), n.Name, n.ID, n.ID)
 	case "tagbody":
 		b.WriteString("(tagbody ")
 		for i := range n.Kids {
@@ -559,6 +559,10 @@ func (c *Case) judge(out runOut, f *Fault) *harness.Violation {
 			case "bend":
 				if fs[1] == pendingRet {
 					pendingRet = ""
+					// every return-from / return leaf yields 7
+					if len(fs) > 2 && fs[2] != "7" {
+						return viol("exit-value", "%s: (return-from %s 7) made its block yield %s; trace: %s", what, fs[1], strings.Join(fs[2:], " "), trace(out.marks))
+					}
 				}
 			case "signal", "interrupt":
 				pendingRet = "" // an error took over
